@@ -194,30 +194,42 @@ class Code310(Code38):
         """
         Convert a list of (offset, line_number) encoding of
         co_linetable into the compacted 3.10-encoded format described
-        in lnotab_notes.txt.
+        in lnotab_notes.txt: pairs (length, line delta), each giving the
+        line of the *next* ``length`` bytes of code.
 
         """
         co_linetable = b""
 
+        entries = list(self.co_linetable)
         prev_line_number = self.co_firstlineno
-        prev_offset = 0
-        offset_diff = 0
+        if entries and entries[0][0] > 0:
+            # The code before the first entry has no line.
+            length = entries[0][0]
+            while length > 254:
+                co_linetable += bytearray([254, 0x80])
+                length -= 254
+            co_linetable += bytearray([length, 0x80])
 
-        for offset, line_number in self.co_linetable:
+        # Every range ends where the next one starts; the last one at the end of the code.
+        ends = entries[1:] + [(len(self.co_code), None)]
+        for (offset, line_number), (end, _) in zip(entries, ends):
+            length = end - offset
             line_diff = line_number - prev_line_number
             prev_line_number = line_number
-            offset_diff = offset - prev_offset
-            prev_offset = offset
-            while offset_diff >= 256:
-                co_linetable += bytearray([255, 0])
-                offset_diff -= 255
-            co_linetable += bytearray([offset_diff, line_diff % 256])
-            while line_diff >= 127:
+            # A line delta is a signed byte, and -128 means "no line": a bigger jump
+            # is spread over zero-length ranges.
+            while line_diff > 127:
                 co_linetable += bytearray([0, 127])
                 line_diff -= 127
             while line_diff < -127:
-                co_linetable += bytearray([0, -127])
-                line_diff -= 127
+                co_linetable += bytearray([0, 0x81])
+                line_diff += 127
+            # A range longer than 254 bytes is continued by ranges with no line change.
+            while length > 254:
+                co_linetable += bytearray([254, line_diff & 0xFF])
+                length -= 254
+                line_diff = 0
+            co_linetable += bytearray([length, line_diff & 0xFF])
 
         self.co_linetable = co_linetable
 
